@@ -11,6 +11,8 @@ run_inproc(tool, argv, stdin_text, cwd)   the real main() in this process: patch
               yaml_merge.get_doc_mergers, yaml_diff.get_docs): via = "file", "dash" (the source is "-" and "-" is
               among the arguments) or "implicit" (the source is "-" although no argument names it: main() decided to
               read the waiting STDIN document); ok = it loaded
+    args      also carries what the user wrote for the policy options (cli, cfg; added by the caller, who wrote them)
+    work      (yaml-merge, yaml-diff: with the policy the tool's own MergerConfig / DifferConfig resolves)
     work      every library call whose answer the tool delivers (EYAMLProcessor.get_eyaml_values / get_nodes /
               set_value / delete_gathered_nodes, Merger.merge_with, Differ.compare_to, the result list yaml-paths hands
               to its printer, get_search_term) with the outcome class it had
@@ -74,8 +76,14 @@ def install(mod, tool, ev, argv):
         saved.append((name, mod.__dict__.get(name, missing)))
         setattr(mod, name, val)
 
-    def work(k, res="", n=0):
-        ev.append({"ph": "work", "k": k, "res": res, "n": n})
+    def work(k, res="", n=0, policy=None):
+        e = {"ph": "work", "k": k, "res": res, "n": n}
+        if policy is not None:
+            e["policy"] = policy
+        ev.append(e)
+
+    def name_of(x):
+        return x.name.lower()
 
     # ---- args / validate
     real_cli, real_val = mod.processcli, mod.validateargs
@@ -231,13 +239,23 @@ def install(mod, tool, ev, argv):
         RealMerger = mod.Merger
 
         class MergerProxy(RealMerger):
+            def _policy(self):
+                # the policy this Merger's own configuration (argparse namespace + --config file) resolves for a node no
+                # [rules] entry names
+                from yamlpath.wrappers import NodeCoords
+                nc, cfg = NodeCoords(None, None, None), self.config
+                return {"hashes": name_of(cfg.hash_merge_mode(nc)), "arrays": name_of(cfg.array_merge_mode(nc)),
+                        "aoh": name_of(cfg.aoh_merge_mode(nc)), "sets": name_of(cfg.set_merge_mode(nc)),
+                        "anchors": name_of(cfg.anchor_merge_mode())}
+
             def merge_with(self, rhs):
+                pol = self._policy()
                 try:
                     r = RealMerger.merge_with(self, rhs)
                 except Exception as ex:      # noqa: BLE001
-                    work("merge", _exc_kind(ex))
+                    work("merge", _exc_kind(ex), 0, pol)
                     raise
-                work("merge", "ok")
+                work("merge", "ok", 0, pol)
                 return r
         setn("Merger", MergerProxy)
     if tool == "diff":
@@ -248,11 +266,14 @@ def install(mod, tool, ev, argv):
 
         class DifferProxy(RealDiffer):
             def compare_to(self, document):
+                from yamlpath.wrappers import NodeCoords
+                nc = NodeCoords(None, None, None)
+                pol = {"arrays": name_of(self.config.array_diff_mode(nc)), "aoh": name_of(self.config.aoh_diff_mode(nc))}
                 r = RealDiffer.compare_to(self, document)
                 acts = [str(e.action) for e in self.get_report()]
                 ndiff = sum(1 for a in acts if a != "s")
                 shown = len(acts) if same else (len(acts) - ndiff if onlysame else ndiff)
-                work("differs" if ndiff else "same", "", 0 if quiet else shown)
+                work("differs" if ndiff else "same", "", 0 if quiet else shown, pol)
                 return r
         setn("Differ", DifferProxy)
     if tool == "paths":
@@ -443,6 +464,20 @@ def load_text(text):
         return absdoc.abstract(absdoc.load(text))
     except Exception:      # noqa: BLE001
         return None
+
+
+def load_stream(text):
+    """A printed multi-document stream -> list of node tables (None when it does not load)."""
+    from yamlpath.common import Parsers
+    docs = []
+    try:
+        for data, ok in Parsers.get_yaml_multidoc_data(Parsers.get_yaml_editor(), absdoc.LOG, text, literal=True):
+            if not ok:
+                return None
+            docs.append(absdoc.abstract(data))
+    except Exception:      # noqa: BLE001
+        return None
+    return docs
 
 
 def same_data(tab, want):
